@@ -566,6 +566,22 @@ def find_one(toks, name, rel, a=0, b=None):
     return out[0]
 
 
+def defined_once(toks, name, rel):
+    """`fn name` with a body must occur exactly once in the whole file, at any depth: a second definition (an impl
+    that overrides the trait's default body, an inherent method of the same name) would make the
+    translated body not the one that runs"""
+    n = 0
+    for i in range(len(toks) - 1):
+        if toks[i] == ('id', 'fn') and toks[i + 1] == ('id', name):
+            j = i
+            while toks[j][1] not in ('{', ';'):
+                j += 1
+            if toks[j][1] == '{':          # declarations `fn name(..);` do not count
+                n += 1
+    if n != 1:
+        err('%s: `fn %s` is defined %d times (an impl overriding the trait default?)' % (rel, name, n))
+
+
 def find_in_container(toks, keyword, pred, name, rel, descr):
     """the `fn name` (with a body) inside the one `trait`/`impl` block whose header satisfies pred"""
     found = []
@@ -695,6 +711,8 @@ def gen_omega(src):
     rsx.check_no_alias(toks, rel)
     known = {}
     out = []
+    for nm in ('recursive_write', 'write_omega', 'read_omega'):
+        defined_once(toks, nm, rel)
     i = find_one(toks, 'recursive_write', rel)
     c, info = one_fn(toks, i, 'fn recursive_write', rel, 'W', known, 'recursive_write', recursive=True)
     known['recursive_write'] = info
@@ -721,6 +739,7 @@ def gen_vbyte(src):
     for trait, m, kind in (('VByteBeRead', 'read_vbyte_be', 'R'), ('VByteLeRead', 'read_vbyte_le', 'R'),
                            ('VByteBeWrite', 'write_vbyte_be', 'W'), ('VByteLeWrite', 'write_vbyte_le', 'W')):
         pred = lambda hdr, trait=trait: re.search(r'\b%s < E > for B\b' % trait, hdr) is not None
+        defined_once(toks, m, rel)
         i, hdr = find_in_container(toks, 'impl', pred, m, rel, '`impl %s<E> for B`' % trait)
         c, info = one_fn(toks, i, 'impl %s<E> for B: fn %s' % (trait, m), rel, kind, {}, m, outer_endian=['E'], outer_types=['B'])
         if 'e' in c.used or 'checks' in c.used:
